@@ -1,53 +1,90 @@
 #!/usr/bin/env python3
 """Runs registered checks against a seeded change kept under /verif/seeded/<id>/ and records the outcome.
 
-  seed_eval.py <seed-id> <property> [<property> …] [--tier quick]
+  seed_eval.py <seed-id> <property> [<property> …] [--tier=quick] [--seed=N] [--in-place]
 
-Applies seeded/<id>/patch.diff to /repo (git apply), runs `verif.py check P` for each property, undoes the
-change (git checkout -- .), and updates seeded/<id>/meta.json (which checks caught it, with which replay line).
-/repo must be clean before; nothing is ever committed there.
+Default: the change is applied to a scratch worktree of /repo under /tmp/seedeval/ and the checks run against it
+(VERIF_REPO=<worktree>, which makes verif.py work on a private copy of the Lean project and build directory), so that
+checks of /repo running at the same time are not disturbed; worktree and private copy are removed afterwards.
+--in-place: apply seeded/<id>/patch.diff to /repo itself (git apply), run the registered commands exactly as they are
+used, undo the change (git checkout -- .); /repo must be clean and nothing else may be using it.
+Either way seeded/<id>/meta.json is updated (which checks caught it, with which lines). Nothing is committed to /repo.
 """
-import sys, os, json, subprocess, time
+import sys, os, json, subprocess, time, shutil
 
 VERIF = os.path.dirname(os.path.dirname(os.path.abspath(__file__)))
 
 
 def main():
     args = [a for a in sys.argv[1:] if not a.startswith("--")]
-    tier = "quick"
+    tier, seed, in_place = "quick", None, False
     for a in sys.argv[1:]:
         if a.startswith("--tier"):
             tier = a.split("=", 1)[1] if "=" in a else "quick"
+        if a.startswith("--seed="):
+            seed = a.split("=", 1)[1]
+        if a == "--in-place":
+            in_place = True
     sid, props = args[0], args[1:]
     d = os.path.join(VERIF, "seeded", sid)
     patch = os.path.join(d, "patch.diff")
-    st = subprocess.run(["git", "-C", "/repo", "status", "--porcelain", "--untracked-files=no"], capture_output=True, text=True).stdout.strip()
-    if st:
-        print("refusing: /repo has local modifications:\n" + st)
-        return 2
     meta_path = os.path.join(d, "meta.json")
     meta = json.load(open(meta_path)) if os.path.exists(meta_path) else {}
-    r = subprocess.run(["git", "-C", "/repo", "apply", patch], capture_output=True, text=True)
+    env = dict(os.environ)
+    wt = iso = None
+    if in_place:
+        st = subprocess.run(["git", "-C", "/repo", "status", "--porcelain", "--untracked-files=no"], capture_output=True, text=True).stdout.strip()
+        if st:
+            print("refusing: /repo has local modifications:\n" + st)
+            return 2
+        r = subprocess.run(["git", "-C", "/repo", "apply", patch], capture_output=True, text=True)
+    else:
+        os.makedirs("/tmp/seedeval", exist_ok=True)
+        wt, iso = "/tmp/seedeval/wt-" + sid, "/tmp/seedeval/iso-" + sid
+        subprocess.run(["git", "-C", "/repo", "worktree", "remove", "--force", wt], capture_output=True)
+        r = subprocess.run(["git", "-C", "/repo", "worktree", "add", "--detach", wt, "HEAD"], capture_output=True, text=True)
+        if r.returncode == 0:
+            r = subprocess.run(["git", "-C", wt, "apply", patch], capture_output=True, text=True)
+        env["VERIF_REPO"], env["VERIF_ISO_DIR"] = wt, iso
     if r.returncode != 0:
         print("patch does not apply:", r.stderr)
+        if wt:
+            subprocess.run(["git", "-C", "/repo", "worktree", "remove", "--force", wt], capture_output=True)
         return 2
     results = meta.get("check_results", {})
     try:
         for p in props:
             t0 = time.time()
-            c = subprocess.run([sys.executable, os.path.join(VERIF, "tools", "verif.py"), "check", p, "--tier", tier], capture_output=True, text=True, cwd=VERIF)
+            cmd = [sys.executable, os.path.join(VERIF, "tools", "verif.py"), "check", p, "--tier", tier] + (["--seed", seed] if seed else [])
+            c = subprocess.run(cmd, capture_output=True, text=True, cwd=VERIF, env=env)
             lines = [l for l in c.stdout.split("\n") if l.startswith("VIOLATION") or l.startswith("OK ") or l.startswith("KNOWN-FINDING")]
-            results[p] = {"exit": c.returncode, "tier": tier, "lines": lines, "wall_s": round(time.time() - t0, 1),
-                          "caught": c.returncode == 1 and any(l.startswith("VIOLATION") for l in lines),
-                          "with_failing_input": any(l.startswith("VIOLATION") and "no-failing-input-found" not in l for l in lines)}
-            print(p, results[p])
+            res = {"exit": c.returncode, "tier": tier, "lines": lines, "wall_s": round(time.time() - t0, 1),
+                   "caught": c.returncode == 1 and any(l.startswith("VIOLATION") for l in lines),
+                   "with_failing_input": any(l.startswith("VIOLATION") and "no-failing-input-found" not in l for l in lines)}
+            if seed:
+                res["seed"] = seed
+            # keep a short excerpt of the replay file (the failing input) next to the result
+            for l in lines:
+                if l.startswith("VIOLATION") and "replay=" in l:
+                    rp = l.split("replay=", 1)[1].split()[0]
+                    try:
+                        j = json.load(open(rp))
+                        fi = j.get("failing_inputs") or []
+                        res["replay_excerpt"] = json.dumps(fi[:2])[:700] if fi else json.dumps({k: j.get(k) for k in ("proof_obligation_broken", "correspondence_diffs") if j.get(k)})[:700]
+                    except Exception as e:
+                        res["replay_excerpt"] = "unreadable: %r" % (e,)
+            results[p if not seed else "%s@seed%s" % (p, seed)] = res
+            print(p, res)
     finally:
-        subprocess.run(["git", "-C", "/repo", "checkout", "--", "."])
-        # put the shared Extracted.lean back to the unchanged tree's values
-        subprocess.run([sys.executable, "-c",
-                        "import sys, os; sys.path.insert(0, '%s/tools'); import extract, translate; L='%s/lean/Momo/'; "
-                        "open(L+'Extracted.lean','w').write(extract.generate('/repo')[0]); "
-                        "[(os.makedirs(os.path.dirname(L+r), exist_ok=True), open(L+r,'w').write(t)) for r, t in translate.generate_all('/repo')[0].items()]" % (VERIF, VERIF)])
+        if in_place:
+            subprocess.run(["git", "-C", "/repo", "checkout", "--", "."])
+            subprocess.run([sys.executable, "-c",
+                            "import sys, os; sys.path.insert(0, '%s/tools'); import extract, translate; L='%s/lean/Momo/'; "
+                            "open(L+'Extracted.lean','w').write(extract.generate('/repo')[0]); "
+                            "[(os.makedirs(os.path.dirname(L+r), exist_ok=True), open(L+r,'w').write(t)) for r, t in translate.generate_all('/repo')[0].items()]" % (VERIF, VERIF)])
+        else:
+            subprocess.run(["git", "-C", "/repo", "worktree", "remove", "--force", wt], capture_output=True)
+            shutil.rmtree(iso, ignore_errors=True)
     meta["check_results"] = results
     json.dump(meta, open(meta_path, "w"), indent=1)
     return 0
